@@ -58,11 +58,9 @@ class Fn:
             lams = astload.find_lambdas(d)
             if self.lambda_index >= len(lams):
                 raise ExtractionError(f'{self.cname}: lambda #{self.lambda_index} not found ({len(lams)} lambdas)')
-            lam = lams[self.lambda_index]
-            ops = [m for m in astload.walk(lam) if m.get('kind') == 'CXXMethodDecl' and m.get('name') == 'operator()']
-            if not ops:
+            d = astload.lambda_call_operator(lams[self.lambda_index])
+            if d is None:
                 raise ExtractionError(f'{self.cname}: lambda without operator()')
-            d = ops[0]
         P = cxx2c.Printer(self.cname, self.types, self.calls, self.members, self.hooks, self.self_struct,
                           self.aggregates, self.stmt_hooks, self.uf_float)
         text = P.function(d, self.ret, self.extra_params)
